@@ -103,6 +103,19 @@ ODD = _switch_comment_shapes() + [
     "import \"\\u{110000}\"\nQWidget {}", "QWidget {} QWidget {}", "", " ", "\ufeff", "// only a comment", "QWidget", "QWidget {", "}", "{}", "QWidget {}}",
     "QWidget { windowTitle: \"\\u{110000}\" }", "QWidget { windowTitle: \"\\xZZ\" }", "QWidget { windowTitle: \"\\u12\" }", "QWidget { windowTitle: 'a\nb' }",
     "QWidget { windowTitle: 0x }", "QWidget { windowTitle: 1e }", "QWidget { minimumWidth: 0b2 }", "QWidget { minimumWidth: 1__0 }", "QWidget { minimumWidth: 0_1 }",
+    # values that must not be turned into allocations or loops of that size (indices, counts, spans, stretch arrays)
+    "QWidget { QGridLayout { QLabel { QLayout.column: 2000000000; QLayout.columnStretch: 1 } } }",
+    "QWidget { QGridLayout { QLabel { QLayout.column: 2000000000; QLayout.columnMinimumWidth: 1 } } }",
+    "QWidget { QGridLayout { QLabel { QLayout.row: 2000000000; QLayout.rowStretch: 1; QLayout.rowMinimumHeight: 1 } } }",
+    "QWidget { QGridLayout { flow: QGridLayout.TopToBottom; QLabel { QLayout.row: 2000000000; QLayout.rowStretch: 1 } } }",
+    "QWidget { QGridLayout { flow: QGridLayout.TopToBottom; QLabel { QLayout.column: 2000000000; QLayout.columnStretch: 1 } } }",
+    "QWidget { QGridLayout { columns: 2000000000; QLabel { QLayout.column: 1999999999; QLayout.columnStretch: 1 } } }",
+    "QWidget { QGridLayout { flow: QGridLayout.TopToBottom; rows: 2000000000; QLabel { QLayout.row: 1999999999; QLayout.rowMinimumHeight: 3 } } }",
+    "QWidget { QGridLayout { columns: 65536; QLabel { QLayout.column: 65535; QLayout.columnStretch: 1 } } }",
+    "QWidget { QFormLayout { QLabel { QLayout.row: 2000000000 } QLabel { QLayout.row: 2147483647; QLayout.column: 1 } } }",
+    "QWidget { QGridLayout { QLabel { QLayout.rowSpan: 2000000000; QLayout.columnSpan: 2147483647 } } }",
+    "QWidget { QVBoxLayout { QLabel { QLayout.rowStretch: 2147483647 } QLabel { QLayout.rowStretch: 2000000000 } } }",
+    "QWidget { QGridLayout { QLabel { QLayout.row: 65535; QLayout.column: 65535; QLayout.rowStretch: 1; QLayout.columnStretch: 1 } } }",
     "QWidget { minimumWidth: 1n }", "QWidget { minimumWidth: .5 }", "QWidget { windowOpacity: 5. }", "QWidget { minimumWidth: 08 }", "QWidget { minimumWidth: 0o8 }",
 ]
 
@@ -256,8 +269,14 @@ def run(tier, seed, replay=None):
         sig = "parser-call-exceeds-cpu-budget" if jid in out.cpu_in_parser else "cpu-budget"
         v.violation(sig, "translation did not finish within %.0f s CPU%s" % (
             common.CPU_BUDGET_S, " (UiDocument::parse alone does not)" if jid in out.cpu_in_parser else ""), {"source": src, "kind": k})
+    crashed = {jid for jid, _, _ in out.crashes}
+    for jid, status, err in out.crashes:
+        k, src = corpus[int(jid[1:])]
+        v.violation("process-crash", "translating the document alone killed the process with signal %d (memory budget %d GiB): %s"
+                    % (-status, common.MEM_BUDGET_BYTES >> 30, err[-200:]), {"source": src, "kind": k, "stderr": err})
     for jid, why in out.inconclusive:
-        v.inconc("%s: %s" % (jid, why))
+        if jid not in crashed:
+            v.inconc("%s: %s" % (jid, why))
 
     # ---- the command-line tool exits with 0 or 1 only
     n_cli = 60 if tier == "quick" else 1000
@@ -338,7 +357,7 @@ def run(tier, seed, replay=None):
     if tier == "thorough":
         import json as _json
         vg_dir = common.workdir("c07vg")
-        slow = {int(j[1:]) for j in out.cpu_violations}
+        slow = {int(j[1:]) for j in out.cpu_violations} | {int(j[1:]) for j in crashed}
         picks = [(i, c) for i, c in enumerate(corpus) if c[0] in ("mutated", "soup", "truncated", "soup-in-binding", "odd") and i not in slow]
         rng.shuffle(picks)
         picks = picks[:4000]
